@@ -285,13 +285,19 @@ func c20Stop(p *Prog, r *Report, sfs []sideFile) {
 				if !((bo.Op == token.NEQ && c.Branch == 0) || (bo.Op == token.EQL && c.Branch == 1)) {
 					continue
 				}
-				open := c.If.Block().Succs[c.Branch]
-				if len(open.Instrs) == 0 {
-					continue
-				}
-				miss := ReachAvoiding(host, open.Instrs[0], func(x ssa.Instruction) bool { return x == closeCall }, normalExit(host))
-				if open.Instrs[0] == closeCall {
+				// from the entry of the closing function: every way to a normal exit passes the
+				// Close or the nil side of this handle's own test
+				nilSide := c.If.Block().Succs[1-c.Branch]
+				miss := ReachAvoiding(host, nil, func(x ssa.Instruction) bool {
+					return x == closeCall || (len(nilSide.Preds) == 1 && x.Block() == nilSide && x == nilSide.Instrs[0]) || (len(nilSide.Preds) != 1 && x == ssa.Instruction(c.If))
+				}, normalExit(host))
+				if len(nilSide.Preds) != 1 {
+					// the nil side joins other paths at once: fall back to the open side only
+					open := c.If.Block().Succs[c.Branch]
 					miss = nil
+					if len(open.Instrs) > 0 && open.Instrs[0] != closeCall {
+						miss = ReachAvoiding(host, open.Instrs[0], func(x ssa.Instruction) bool { return x == closeCall }, normalExit(host))
+					}
 				}
 				if len(miss) > 0 {
 					skipped = p.InstrPos(miss[0])
